@@ -48,7 +48,12 @@ def eval_out(out, model):
             r ^= eval_out(it, model)
         return r
     if isinstance(out, list):
-        return [eval_out(o, model) for o in out]
+        from .harness import SStr
+        r = [eval_out(o, model) for o in out]
+        if isinstance(out, SStr):
+            while r and r[-1] == 0:
+                r.pop()
+        return r
     if isinstance(out, tuple):
         return [eval_out(o, model) for o in out]
     if isinstance(out, dict):
